@@ -86,6 +86,9 @@ def ObjE.nonempty (o : ObjE) : Prop :=
   | .hash => o.pairs ≠ []
   | _ => True
 
+instance ObjE.decNonempty (o : ObjE) : Decidable o.nonempty := by
+  unfold ObjE.nonempty; cases o.kind <;> exact inferInstance
+
 /-- the expansion expected for key `k` -/
 def ObjE.cmds (o : ObjE) (k : Bytes) : List Cmd :=
   match o.kind with
